@@ -44,6 +44,10 @@ CHECKS = {
   "text": "Seeded search over 1-3 submitter threads racing the one shutdown() call (placed by semantic triggers and drawn times), earlier futures pending / running / done, done-callbacks that submit again, x schedules with line-level pre-emption inside submit() and shutdown(). Oracle over the history: every future a submit() returned that was certainly pending throughout the shutdown() call received exactly one cancel() from the shutdown thread inside that call; at most one in every case; the wrapped executor was shut down inside the call; deadlocks are reported with their cycle.",
   "note": "Spy delegate futures record each cancel() with the calling thread; futures whose done-ness changes during the sweep may see 0 or 1.",
   "design": "10 (C10)"},
+ "C11": {
+  "text": "Seeded search over stacks (1-3 layers of any type, optional AsyncioExecutor on top) over a spy base that records shutdown(*args, **kwargs), workload states at shutdown time (idle, queued, between retries with 1000 s sleeps, polling with 50 s intervals, callable running), racing submitters released by a semantic trigger at shutdown entry, wait True/False, cancel_futures present/absent, repeated shutdown, x schedules. Oracles: refusal with the documented RuntimeError afterwards on every executor of the chain, exactly one shutdown at the base with the same arguments, worker threads gone when shutdown(wait=True) returns, it returns (deadlock / hang detection) and does not wait out a sleep or interval (virtual time), racing submits raise that error or return a future.",
+  "note": "Thread liveness is read from the simulator's thread table at the moment shutdown() returns.",
+  "design": "10 (C11)"},
 }
 def main():
     checks = []
